@@ -37,7 +37,8 @@ def gen(rng, i, tier):
         groups=0.3, rails=rng.choice([0.0, 0.4]),
     )
     orders = ["as_generated"] + rng.sample(ORDERS, 3)
-    return {"spec": spec, "orders": orders, "oseed": rng.randrange(1 << 30), "tol": 1e-6, "ta": 25.0}
+    return {"spec": spec, "orders": orders, "oseed": rng.randrange(1 << 30), "tol": 1e-6, "ta": 25.0,
+            "history": rng.choice(_rows.HISTORIES), "hseed": rng.randrange(1 << 30)}
 
 
 def _c(name, kind, args, parents):
@@ -62,9 +63,13 @@ def run(ctx, case):
     results = {}
     for how in case["orders"]:
         spec = spec0 if how == "as_generated" else S.topo_orders(spec0, random.Random(case["oseed"]), how)
-        st, sysobj = H.try_build(spec)
-        if st != "ok":
-            raise RuntimeError("spec rejected: %s" % H.exc_sig(sysobj))
+        if how == "as_generated" and case.get("history", "fresh") != "fresh":
+            spec, sysobj = _rows.build_with_history(ctx, spec, case["history"], case.get("hseed", 0))
+            spec0 = spec  # the other construction orders are permutations of the EFFECTIVE structure
+        else:
+            st, sysobj = H.try_build(spec)
+            if st != "ok":
+                raise RuntimeError("spec rejected: %s" % H.exc_sig(sysobj))
         st, df = H.solve(sysobj, energy=True)
         ctx.count("outcome", "returned" if st == "ok" else type(df).__name__)
         if st != "ok":
